@@ -216,6 +216,35 @@ theorem c03_pending_discarded_when_entity_gone (s : Gate.St) (p : Nat) (ent : Li
     (hw : w ∈ (Gate.stepClean s p ent).pend) (hp : w.e.2.1 = p) (he : w.e.2.2.1 = ent) : w.ok = false :=
   Gate.clean_discards s p ent w hw hp he
 
+/-- … lifted to ALL continuations: once the clean-up of the writer's entity has run, a write of that entity that had
+    passed the gate and was still waiting is never applied, whatever follows — a late approval, a new binding granted to
+    the re-announced entity, a later gate event that re-uses the id. -/
+theorem c03_cleaned_never_applied (s : Gate.St) (p : Nat) (ent : List Nat) (i : Nat) (hu : i ∈ s.used)
+    (hmine : ∀ w ∈ s.pend, w.id = i → w.e.2.1 = p ∧ w.e.2.2.1 = ent) (hna : ∀ w ∈ s.applied, w.id ≠ i)
+    (evs : List Gate.Ev) : ∀ w ∈ (Gate.run (Gate.stepClean s p ent) evs).applied, w.id ≠ i :=
+  Gate.cleaned_never_applied s p ent i hu hmine hna evs
+
+/-- "otherwise the data is unchanged", all continuations: a write the gate refused (not writable, or not bound at that
+    moment) is never applied, whatever follows — in particular not by a binding granted afterwards. -/
+theorem c03_refused_never_applied (s : Gate.St) (i : Nat) (e : Entry) (wr : Bool) (hfresh : s.used.contains i = false)
+    (hv : Gate.verdict s.binds e wr = false) (hna : ∀ w ∈ s.applied, w.id ≠ i) (hnp : ∀ w ∈ s.pend, w.id ≠ i)
+    (evs : List Gate.Ev) : ∀ w ∈ (Gate.run (Gate.stepGate s i e wr) evs).applied, w.id ≠ i :=
+  Gate.refused_never_applied s i e wr hfresh hv hna hnp evs
+
+/-- non-vacuity of the two: the state after `gate 1` (bound) meets the hypotheses of the first for (1, [1]) and the
+    write IS applied if the clean-up does not run; the empty registry meets those of the second -/
+example :
+    let s := Gate.run (Gate.init Cfg.clean [(([1], 1), 1, ([1], 1))]) [.gate 1 (([1], 1), 1, ([1], 1)) true]
+    (1 ∈ s.used) ∧ (∀ w ∈ s.pend, w.id = 1 → w.e.2.1 = 1 ∧ w.e.2.2.1 = [1]) ∧ s.applied.map (·.id) = [] ∧
+    (Gate.run s [.apply 1]).applied.map (·.id) = [1] ∧
+    (Gate.run (Gate.stepClean s 1 [1]) [.reg (.grant (([1], 1), 1, ([1], 1))), .apply 1]).applied.map (·.id) = [] ∧
+    Gate.verdict (Gate.init Cfg.clean []).binds (([1], 1), 1, ([1], 1)) true = false := by
+  refine ⟨by decide, ?_, by decide, by decide, by decide, by decide⟩
+  intro w hw hid
+  simp [Gate.run, Gate.step, Gate.stepGate, Gate.init, Gate.verdict] at hw
+  subst hw
+  exact ⟨rfl, rfl⟩
+
 /-- Cross-model agreement: the sequential dispatch world is the schedule "gate immediately followed by apply" of this
     model — the gate event's verdict is `gateOk` on the same registry, the registry operations are `callApply` /
     `removeEnt` of the dispatch world (same family over the C09 / C10 flags). -/
